@@ -77,12 +77,19 @@ def style_update(e, var, lets):
 
 def colour_expr(e, lets):
     e = hir.simp(e)
+    for _ in range(4):         # the Option may be built in a temporary before the setter is called
+        if e.get("k") == "local" and ("id", e.get("id")) in lets:
+            e = hir.simp(lets[("id", e.get("id"))])
+        else:
+            break
     if hir.is_def(e, "Option::None"):
         return ("none",)
     if e.get("k") == "call" and e.get("ctor", "").endswith("Option::Some"):
         v = hir.simp(e["args"][0])
         for _ in range(6):     # conversions and temporaries between the constructor and Some(..) are transparent
-            if hir.is_call(v, "Into<U>>::into", "From<T>>::from"):
+            if hir.is_call(v, "Into<U>>::into", "From<T>>::from") or \
+                    (v.get("k") == "call" and len(v.get("args", [])) == 1 and hir.callee_decl(v) in ("core::convert::From::from", "core::convert::Into::into")
+                     and str(v.get("ty", "")) == "anstyle::color::Color"):
                 v = hir.simp(v["args"][0])
             elif v.get("k") == "local" and ("id", v.get("id")) in lets:
                 v = hir.simp(lets[("id", v.get("id"))])
